@@ -104,7 +104,7 @@ class MethodProxy:
 		self._vector = vector
 		self._method_name = method_name
 	
-	def __call__(self, *args, **kwargs):
+	def __call__(self, /, *args, **kwargs):
 		method = self._method_name
 		results = []
 		for elem in self._vector._underlying:
@@ -1605,7 +1605,7 @@ class _String(Vector):
 		""" Call the internal find method on string """
 		return Vector(tuple((s.find(*args, **kwargs) if s is not None else None) for s in self._underlying))
 
-	def format(self, *args, **kwargs):
+	def format(self, /, *args, **kwargs):
 		""" Call the internal format method on string """
 		return Vector(tuple((s.format(*args, **kwargs) if s is not None else None) for s in self._underlying))
 
